@@ -7,12 +7,18 @@ tie     : translator (every run) — translate/cxx2lean.py (spec `strtree`) rege
           Props/C15Gen.lean proves each equal to the model function (Env.inter/union/isNull/covers/containsPt, Node.isLeaf, Entry.deleted,
           Tree.insert, STR.sliceCount/sliceCapacity) through the representations of Model/Index/Rep.lean, for all arguments (the slice
           functions under the explicit hypothesis that ceil(a/b), ceil(sqrt(m)) are exact); stream `envpreds` runs the same C++ functions.
-          correspondence — generated histories run through GEOSSTRtree_* (C API -> TemplateSTRtree<void*>)
+          correspondence — generated histories run through GEOSSTRtree_* (C API -> TemplateSTRtree<void*>, stream strtree) and through
+          the C++ API TemplateSTRtree<Item*> (stream strcxx: also query into a vector and the items() forward iterator)
           and through the model; sliceCount/sliceCapacity/treeSize arithmetic compared with the
-          C++ `ceil(sqrt(double))` code via a subclass exposing the protected members.
+          C++ `ceil(sqrt(double))` code via a subclass exposing the protected members; stream striter runs
+          TemplateSTRtreeImpl::Iterator over trees with removal patterns (runs of removed leaves adjacent in storage order)
+          and compares it IN ORDER with the model of the iterator (skipDeleted / ++ / * / !=) run on the leaf array;
+          stream quadnode runs histories of quadtree::Root and Quadtree (insert / remove / query / visit / queryAll / size /
+          depth / prunable flags) and compares every result IN ORDER with the model Model/Index/Quad.lean, whose
+          removal / pruning behaviour is proved (quad_* theorems) to lose no item.
 Because the model's outputs are *proved* equal to the live-multiset specification, any disagreement
 on a query / iterate / remove / nearest token is a concrete failing input for the property."""
-import os, json
+import os, json, re
 import verif
 from verif import log
 
@@ -122,6 +128,8 @@ def run(ctx):
         "slice arithmetic: the bridge assumes ceil((double)a/(double)b) and ceil(sqrt((double)m)) exact (ExactCeil); for IEEE doubles this is sampled by stream strslices, not proved",
         "doubles are compared through an order-preserving integer key (Driver.f64Key); NaN ordinates excluded (null envelope = none)",
         "other indexes (SimpleSTRtree, legacy STRtree, SIRtree, SortedPackedIntervalRTree, Quadtree, KdTree, HotPixelIndex) are specified by the brute-force filter and tied by correspondence only (stream otheridx); MonotoneChain overlap search is not covered",
+        "quadtree model (lean/GeosModel/Model/Index/Quad.lean) is hand-written from NodeBase/Node/Root/Key/Quadtree; exact for integer ordinates (scaled by 4), IntervalSize::isZeroWidth read as min == max, frexp as the least power of two above the extent, Quadtree::minExtent = 1.0; tied by the in-order stream quadnode only; its removal / pruning / query-subset theorems are proved, 'insert places the item where every intersecting query reaches it' is not",
+        "TemplateSTRtreeImpl::Iterator is hand-modelled (skipDeleted / itNext / itDeref / itemsLoop) and tied by the in-order stream striter and by the J operation of stream strcxx",
     ])
     # translator tie: Generated/STRtree.lean is rewritten from Envelope.h / Envelope.cpp / TemplateSTRNode.h / TemplateSTRtree.h and
     # proved equal (through the representations of Model/Index/Rep.lean) to the model functions the theorems rest on
@@ -135,23 +143,27 @@ def run(ctx):
         ctx.violation("harness c15 does not compile against the current tree", {"kind": "tie-broken", "correspondence": "harness/c15.cpp", "log": out[-3000:]}, nofail=True)
         return
     quick = ctx.tier == "quick"
-    n_hist = 6000 if quick else 1500000
+    n_hist = 10000 if quick else 1500000
     n_sl = 20000 if quick else 4000000
     corr = {}
     found_input = False
     # geosdrv's stream table is shared and fixed: the driver answers `E …` and `K …` lines in its `strslices` handler, `HX …` lines
     # in `strtree`, `N …` lines in `otheridx`
     dstream = {"envpreds": "strslices", "striter": "strslices", "strcxx": "strtree", "quadnode": "otheridx"}
-    for stream, n in (("strtree", n_hist), ("strcxx", n_hist), ("striter", 16000 if quick else 2000000), ("strslices", n_sl),
-                      ("envpreds", 40000 if quick else 4000000), ("otheridx", 20000 if quick else 6000000),
-                      ("quadnode", 12000 if quick else 1500000)):
+    for stream, n in (("strtree", n_hist), ("strcxx", n_hist), ("striter", 40000 if quick else 2000000), ("strslices", n_sl),
+                      ("envpreds", 40000 if quick else 4000000), ("otheridx", 30000 if quick else 6000000),
+                      ("quadnode", 40000 if quick else 1500000)):
         shards = min(verif.NPROC, 8)
         r = verif.run_stream(exe, stream, ctx.seed, n, ctx.work, shards=shards, driver_stream=dstream.get(stream))
         corr[stream] = {"cases": r["cases"], "disagreements": len(r["disagreements"]) + r.get("more_disagreements", 0),
                         "distribution": r["stats"]}
         ctx.cov["samples"] += r.get("samples", [])[:2]
         if r["error"]:
-            if "harness exit -" in r["error"] or "harness exit 1" in r["error"]:
+            m_rc = re.search(r"harness exit (-?\d+)", r["error"])
+            h_rc = int(m_rc.group(1)) if m_rc else 0
+            # died on a signal (negative), by abort()/assert (134) or exit(1): the library under the harness failed on an input.
+            # 126 / 127 (the loader could not start the executable, e.g. the shared library is being relinked) is not a failing input.
+            if h_rc < 0 or h_rc in (1, 134, 139):
                 # the harness (i.e. the library under it) crashed: the failing input is the one this seed generates
                 found_input = True
                 case, crc = (None, 0)
